@@ -592,7 +592,11 @@ func (c *Check) grow() {
 	parallel(procs, c.NCPU, func(i int) {
 		out := filepath.Join(c.E.Scratch, "ses", fmt.Sprintf("grow%d.txt", i))
 		ses := &workerlib.Session{Mode: "cover", Corpus: c.CorpusP, Seed: c.Seed, Worker: i, Runs: iters, SeqOut: out, Words: novelLiterals(c.E.VerifDir, c.E.Report.StrLits)}
-		pr := runWorker(c.E, ses, 2, 30*time.Minute)
+		to := 3 * time.Minute
+		if c.Tier == "thorough" {
+			to = 20 * time.Minute
+		}
+		pr := runWorker(c.E, ses, 4, to)
 		if pr.Summary == nil {
 			// the non-race build died (a fatal error on some generated input):
 			// growth is best effort, the stages that decide do not depend on it
